@@ -26,7 +26,7 @@ WALL_BUDGET = {"quick": 480, "thorough": 3000}
 
 def jobs(tier, seed):
     out = []
-    shapes = [('R2', 'R3'), ('R3', 'R2', 'R19'), ('R2', 'N', 'R3'), ('R19', 'X1', 'R2'), ('R2', 'R2', 'R2'), ('R3', 'S', 'R2'), ('R19', 'S', 'S')]
+    shapes = [('R2', 'R3'), ('R3', 'R2', 'R19'), ('R2', 'N', 'R3'), ('R19', 'X1', 'R2'), ('R2', 'R2', 'R2'), ('R3', 'S', 'R2'), ('R19', 'S', 'S'), ('R3', 'T', 'R2'), ('R2', 'R19', 'T')]
     if tier != 'quick':
         shapes += [('R2', 'R3', 'R2', 'R3'), ('R2', 'U2', 'R3', 'N', 'R2'), ('R19', 'R19', 'R2')]
     for sh in [('R2', 'D5', 'R3'), ('D5', 'R2'), ('R19', 'D5')]:
@@ -35,8 +35,11 @@ def jobs(tier, seed):
         for mode in (0, 1, 2):
             out.append(('seq', sh, dmg, mode, True))
     for sh in shapes:
-        nf = len([k for k in sh if k.startswith('R') or k == 'S'])
+        nf = len([k for k in sh if k.startswith('R') or k in ('S', 'T')])
+        twins = [i for i, k in enumerate([k for k in sh if k.startswith('R') or k in ('S', 'T')]) if k == 'T']
         for dmg in itertools.chain.from_iterable(itertools.combinations(range(nf), r) for r in range(nf + 1)):
+            if any((t in dmg) != ((t - 1) in dmg) for t in twins):
+                continue      # a byte-identical copy is damaged exactly when the original is
             for mode in (0, 1, 2):
                 out.append(('seq', sh, dmg, mode, True))
             out.append(('seq', sh, dmg, 1, False))
